@@ -254,10 +254,13 @@ class QModuleMixin(ABC):
             input = maybe_requantize(input, self.input_scale)
         output = self.qforward(input)
         if self.activation_qtype is not None:
+            # The returned activations must not share the module's scale buffer: an in-place operation applied to them
+            # downstream (copy_, indexed assignment) would otherwise silently modify the module.
+            output_scale = self.output_scale.clone()
             if isinstance(output, QBytesTensor):
-                output = maybe_requantize(output, self.output_scale)
+                output = maybe_requantize(output, output_scale)
             else:
-                output = quantize_activation(output, qtype=self.activation_qtype, scale=self.output_scale)
+                output = quantize_activation(output, qtype=self.activation_qtype, scale=output_scale)
         return output
 
     def freeze(self):
